@@ -65,6 +65,11 @@ CHECKS = {
     text="TLC checks exhaustively (stores of up to 3 (quick) / 4 (thorough) messages out of 14 kinds, every query of the grid incl. continuation from every id) that the code-shaped scan returns exactly the most recent `limit` stored, live, same-contract, prefix-matching, in-window messages that fit the reply cap. Simulated store sequences (two contracts with constructed 32-bit prefix collisions, nested channels, same-second bursts, an expired message, near-cap payloads) are executed on the real badger-backed providers and every query result (the grid, plus continuation from every returned id) is validated by TLC against QuerySpec: same set, each once, non-decreasing time, nothing foreign.",
     note="Expiry uses timestamps already in the past; order inside one second free; first filter level literal. The emitter/history/ request path is not driven here (C07 covers replay on subscribe).",
     ref="4.4, 5/C06"),
+ "C14": dict(
+    level="model_checking", technique="TLA+ spec Ban.tla (two brokers, LWW ban entries, restart, full-state gossip) model-checked with TLC; TLC-generated ban/unban/use/restart/gossip sequences replayed on real brokers; outcomes validated by TLC (Ban_Trace)",
+    text="TLC checks that an acknowledged ban is in force until an acknowledged unban, across restart and merge. Every edge of the one-key state graph plus simulated long sequences on two keys are executed on two real brokers: emitter/keyban/ requests with a real master key, uses through SUBSCRIBE/PUBLISH, restart = Service.Close + NewService on the same cluster directory, gossip = Gossip().Encode() into the other broker's OnGossip (which may or may not have looked the key up before). TLC validates that every use is refused iff the model says the key is banned on that broker.",
+    note="Strictly increasing wall clock between ban operations. Restart is a clean stop (a SIGKILL variant is not built). Gossip is delivered by the harness as a full-state exchange.",
+    ref="4.6, 5/C14"),
 }
 
 NOT_YET = "check not built yet in this session (planned, see DESIGN.md section 5); not claimed until its machinery exists"
